@@ -54,6 +54,7 @@
 #include <fcppt/optional/object.hpp>
 #include <fcppt/optional/reference.hpp>
 
+#include <sys/time.h>
 #include <array>
 #include <optional>
 #include <sstream>
@@ -73,6 +74,21 @@ using tup = std::array<ll, N>;
 
 constexpr int CAP = 400;
 bool runaway = false; // a capped iteration was observed
+
+// ---- per-call watchdog (round 3): every driven call re-arms a CPU-time timer (ITIMER_VIRTUAL: user
+// time of this process only, so a loaded machine cannot fire it); a call that spins for WD_SECS of CPU
+// ends the process with a {"e":"crash","what":"hang"} line and rc 68 while the partial line names the call.
+constexpr int WD_SECS = 20;
+void wd_fire(int) { vj::crash_line("hang", SIGVTALRM); _exit(68); }
+void wd_arm()
+{
+  static bool installed = false;
+  if (!installed) { std::signal(SIGVTALRM, wd_fire); installed = true; }
+  struct itimerval t{};
+  t.it_value.tv_sec = WD_SECS;
+  setitimer(ITIMER_VIRTUAL, &t, nullptr);
+}
+void wd_begin(std::string const &prefix) { wd_arm(); vj::begin_call(prefix); }
 
 ll sat(unsigned long long v) { return v >= 2147483647ULL ? 2147483647LL : static_cast<ll>(v); }
 ll sat(unsigned long v) { return sat(static_cast<unsigned long long>(v)); }
@@ -260,7 +276,7 @@ void op_pos_range(tup<N> const &mn, tup<N> const &sp, bool via_mk)
   using pos = grid::pos<T, N>;
   using min_t = grid::min<T, N>;
   using sup_t = grid::sup<T, N>;
-  vj::begin_call(vj::J().kv("f", "pos_range").kv("N", static_cast<ll>(N)).kv("T", tname<T>()).kv("via", via_mk ? "mk" : "ctor")
+  wd_begin(vj::J().kv("f", "pos_range").kv("N", static_cast<ll>(N)).kv("T", tname<T>()).kv("via", via_mk ? "mk" : "ctor")
                      .raw("min", js<N>(mn)).raw("sup", js<N>(sp)).s);
   min_t const m{mkvec<pos>(mn)};
   sup_t const s{mkvec<pos>(sp)};
@@ -275,7 +291,7 @@ void op_pos_range(tup<N> const &mn, tup<N> const &sp, bool via_mk)
 template <typename T, std::size_t N>
 void op_whole_range(tup<N> const &size)
 {
-  vj::begin_call(vj::J().kv("f", "whole_range").kv("N", static_cast<ll>(N)).kv("T", tname<T>()).raw("dim", js<N>(size)).s);
+  wd_begin(vj::J().kv("f", "whole_range").kv("N", static_cast<ll>(N)).kv("T", tname<T>()).raw("dim", js<N>(size)).s);
   auto const r = grid::make_pos_range(mkdim<grid::dim<T, N>>(size));
   std::string vis;
   bool capped;
@@ -312,7 +328,7 @@ void op_pos_ref_range(tup<N> const &gsize, gen_t<N> const &g, tup<N> const &mn, 
 {
   using G = grid_t<N>;
   using pos = typename G::pos;
-  vj::begin_call(vj::J().kv("f", "pos_ref_range").kv("N", static_cast<ll>(N)).raw("gsize", js<N + 0>(gsize)).raw("gen", js<N + 1>(g))
+  wd_begin(vj::J().kv("f", "pos_ref_range").kv("N", static_cast<ll>(N)).raw("gsize", js<N + 0>(gsize)).raw("gen", js<N + 1>(g))
                      .raw("min", js<N>(mn)).raw("sup", js<N>(sp)).kv("c", cnst).s);
   G gr = make_grid<N>(gsize, g);
   std::string vis;
@@ -340,7 +356,7 @@ template <std::size_t N>
 void op_whole_ref_range(tup<N> const &gsize, gen_t<N> const &g, bool cnst)
 {
   using G = grid_t<N>;
-  vj::begin_call(vj::J().kv("f", "whole_ref_range").kv("N", static_cast<ll>(N)).raw("gsize", js<N>(gsize)).raw("gen", js<N + 1>(g)).kv("c", cnst).s);
+  wd_begin(vj::J().kv("f", "whole_ref_range").kv("N", static_cast<ll>(N)).raw("gsize", js<N>(gsize)).raw("gen", js<N + 1>(g)).kv("c", cnst).s);
   G gr = make_grid<N>(gsize, g);
   std::string vis;
   std::vector<ll> vals;
@@ -365,7 +381,7 @@ void op_whole_ref_range(tup<N> const &gsize, gen_t<N> const &g, bool cnst)
 template <typename T, std::size_t N>
 void op_offset(tup<N> const &size)
 {
-  vj::begin_call(vj::J().kv("f", "offset").kv("N", static_cast<ll>(N)).kv("T", tname<T>()).raw("size", js<N>(size)).s);
+  wd_begin(vj::J().kv("f", "offset").kv("N", static_cast<ll>(N)).kv("T", tname<T>()).raw("size", js<N>(size)).s);
   std::string ps = "[";
   std::vector<ll> offs;
   auto const d = mkdim<grid::dim<T, N>>(size);
@@ -401,7 +417,7 @@ void op_in_range(tup<N> const &gsize, gen_t<N> const &g)
 {
   using G = grid_t<N>;
   using pos = typename G::pos;
-  vj::begin_call(vj::J().kv("f", "in_range").kv("N", static_cast<ll>(N)).raw("gsize", js<N>(gsize)).raw("gen", js<N + 1>(g)).s);
+  wd_begin(vj::J().kv("f", "in_range").kv("N", static_cast<ll>(N)).raw("gsize", js<N>(gsize)).raw("gen", js<N + 1>(g)).s);
   G const gr = make_grid<N>(gsize, g);
   std::string ps = "[";
   std::vector<ll> inr, ird;
@@ -420,7 +436,7 @@ void op_at(tup<N> const &gsize, gen_t<N> const &g)
 {
   using G = grid_t<N>;
   using pos = typename G::pos;
-  vj::begin_call(vj::J().kv("f", "at").kv("N", static_cast<ll>(N)).raw("gsize", js<N>(gsize)).raw("gen", js<N + 1>(g)).s);
+  wd_begin(vj::J().kv("f", "at").kv("N", static_cast<ll>(N)).raw("gsize", js<N>(gsize)).raw("gen", js<N + 1>(g)).s);
   G gr = make_grid<N>(gsize, g);
   G const &cgr = gr;
   std::string ps = "[";
@@ -444,7 +460,7 @@ template <std::size_t N>
 void op_construct(tup<N> const &size, gen_t<N> const &g, std::string const &kind)
 {
   using G = grid_t<N>;
-  vj::begin_call(vj::J().kv("f", "construct").kv("N", static_cast<ll>(N)).kv("kind", kind).raw("size", js<N>(size)).raw("gen", js<N + 1>(g)).s + ",");
+  wd_begin(vj::J().kv("f", "construct").kv("N", static_cast<ll>(N)).kv("kind", kind).raw("size", js<N>(size)).raw("gen", js<N + 1>(g)).s + ",");
   if (kind == "fn")
   {
     G const gr = make_grid<N>(size, g);
@@ -467,7 +483,7 @@ template <std::size_t N>
 void op_resize(tup<N> const &size, gen_t<N> const &g, tup<N> const &nsize, gen_t<N> const &ig, bool rv)
 {
   using G = grid_t<N>;
-  vj::begin_call(vj::J().kv("f", "resize").kv("N", static_cast<ll>(N)).raw("size", js<N>(size)).raw("gen", js<N + 1>(g))
+  wd_begin(vj::J().kv("f", "resize").kv("N", static_cast<ll>(N)).raw("size", js<N>(size)).raw("gen", js<N + 1>(g))
                      .raw("nsize", js<N>(nsize)).raw("igen", js<N + 1>(ig)).kv("rv", rv).s + ",");
   G src = make_grid<N>(size, g);
   auto const init = [&ig](typename G::pos const &p) { return lin<N>(ig, p); };
@@ -480,7 +496,7 @@ template <std::size_t N>
 void op_map(tup<N> const &size, gen_t<N> const &g, ll fa, ll fb, bool rv)
 {
   using G = grid_t<N>;
-  vj::begin_call(vj::J().kv("f", "map").kv("N", static_cast<ll>(N)).raw("size", js<N>(size)).raw("gen", js<N + 1>(g)).kv("fa", fa).kv("fb", fb).kv("rv", rv).s + ",");
+  wd_begin(vj::J().kv("f", "map").kv("N", static_cast<ll>(N)).raw("size", js<N>(size)).raw("gen", js<N + 1>(g)).kv("fa", fa).kv("fb", fb).kv("rv", rv).s + ",");
   G src = make_grid<N>(size, g);
   auto const f = [fa, fb](int const x) { return static_cast<int>(fa * x + fb); };
   G const res = rv ? grid::map(std::move(src), f) : grid::map(src, f);
@@ -500,7 +516,7 @@ void op_apply(std::vector<tup<N>> const &sizes, std::vector<gen_t<N>> const &gen
   }
   ss += "]";
   gs += "]";
-  vj::begin_call(vj::J().kv("f", "apply").kv("N", static_cast<ll>(N)).raw("sizes", ss).raw("gens", gs).raw("co", jl(co)).s + ",");
+  wd_begin(vj::J().kv("f", "apply").kv("N", static_cast<ll>(N)).raw("sizes", ss).raw("gens", gs).raw("co", jl(co)).s + ",");
   std::vector<G> in;
   for (std::size_t k = 0; k < sizes.size(); ++k) in.push_back(make_grid<N>(sizes[k], gens[k]));
   if (in.size() == 1)
@@ -524,7 +540,7 @@ template <std::size_t N>
 void op_fill(tup<N> const &size, gen_t<N> const &g, gen_t<N> const &fg)
 {
   using G = grid_t<N>;
-  vj::begin_call(vj::J().kv("f", "fill").kv("N", static_cast<ll>(N)).raw("size", js<N>(size)).raw("gen", js<N + 1>(g)).raw("fgen", js<N + 1>(fg)).s + ",");
+  wd_begin(vj::J().kv("f", "fill").kv("N", static_cast<ll>(N)).raw("size", js<N>(size)).raw("gen", js<N + 1>(g)).raw("fgen", js<N + 1>(fg)).s + ",");
   G gr = make_grid<N>(size, g);
   grid::fill(gr, [&fg](typename G::pos const &p) { return lin<N>(fg, p); });
   vj::end_call(grid_obs<N>(gr) + "}");
@@ -534,7 +550,7 @@ void op_fill(tup<N> const &size, gen_t<N> const &g, gen_t<N> const &fg)
 template <typename S, std::size_t N>
 void op_clamped_min()
 {
-  vj::begin_call(vj::J().kv("f", "clamped_min").kv("N", static_cast<ll>(N)).kv("T", tname<S>()).s);
+  wd_begin(vj::J().kv("f", "clamped_min").kv("N", static_cast<ll>(N)).kv("T", tname<S>()).s);
   std::string ps = "[", rs = "[";
   bool first = true;
   for_box<N>(fill_tup<N>(-2), fill_tup<N>(6), [&](tup<N> const &p) {
@@ -549,7 +565,7 @@ void op_clamped_min()
 template <typename U, std::size_t N>
 void op_clamped_sup(tup<N> const &size)
 {
-  vj::begin_call(vj::J().kv("f", "clamped_sup").kv("N", static_cast<ll>(N)).kv("T", tname<U>()).raw("size", js<N>(size)).s);
+  wd_begin(vj::J().kv("f", "clamped_sup").kv("N", static_cast<ll>(N)).kv("T", tname<U>()).raw("size", js<N>(size)).s);
   std::string ps = "[", rs = "[";
   bool first = true;
   auto const d = mkdim<grid::dim<U, N>>(size);
@@ -566,7 +582,7 @@ template <typename S, std::size_t N>
 void op_clamped_sup_signed(tup<N> const &size)
 {
   using U = std::make_unsigned_t<S>;
-  vj::begin_call(vj::J().kv("f", "clamped_sup_signed").kv("N", static_cast<ll>(N)).kv("T", tname<S>()).raw("size", js<N>(size)).s);
+  wd_begin(vj::J().kv("f", "clamped_sup_signed").kv("N", static_cast<ll>(N)).kv("T", tname<S>()).raw("size", js<N>(size)).s);
   std::string ps = "[", rs = "[";
   bool first = true;
   auto const d = mkdim<grid::dim<U, N>>(size);
@@ -577,6 +593,95 @@ void op_clamped_sup_signed(tup<N> const &size)
     rs += jv<N>(grid::clamped_sup_signed(mkvec<grid::pos<S, N>>(p), d).get());
   });
   vj::end_call(",\"ps\":" + ps + "],\"rs\":" + rs + "]}");
+}
+
+// ------------------------------------------------------------------ round 3: wide values
+// offset on grids far larger than the enumerated ones (offset is a pure function of position and size, no
+// grid is allocated): strides beyond 2^16, every offset below 2^31 (TLC integers)
+template <typename T, std::size_t N>
+void op_offset_at(tup<N> const &size)
+{
+  wd_begin(vj::J().kv("f", "offset_at").kv("N", static_cast<ll>(N)).kv("T", tname<T>()).raw("size", js<N>(size)).s);
+  std::string ps = "[";
+  std::vector<ll> offs;
+  auto const d = mkdim<grid::dim<T, N>>(size);
+  tup<N> lo, hi;
+  for (std::size_t i = 0; i < N; ++i) { lo[i] = 0; hi[i] = 3; }
+  // per coordinate: 0, 1, extent / 2, extent - 1
+  for_box<N>(lo, hi, [&](tup<N> const &c) {
+    tup<N> p;
+    for (std::size_t i = 0; i < N; ++i) p[i] = c[i] == 0 ? 0 : c[i] == 1 ? 1 : c[i] == 2 ? size[i] / 2 : size[i] - 1;
+    if (!offs.empty()) ps += ',';
+    ps += js<N>(p);
+    offs.push_back(sat(grid::offset(mkvec<grid::pos<T, N>>(p), d)));
+  });
+  ps += "]";
+  vj::end_call(",\"ps\":" + ps + ",\"offs\":" + jl(offs) + "}");
+}
+
+// the clamp helpers on extreme coordinates of the position type (N = 1, 2).  Inputs and results are logged
+// saturated to +-(2^31-1); clamping is monotone, so the saturated result of the documented function is the
+// documented function of the saturated input whenever the bound (size <= 6 / 0) is small.
+template <typename S>
+std::vector<S> extreme_values()
+{
+  using L = std::numeric_limits<S>;
+  std::vector<S> v{L::min(), static_cast<S>(L::min() + 1), static_cast<S>(3), static_cast<S>(L::max() - 1), L::max()};
+  if constexpr (std::is_signed_v<S>) v.push_back(static_cast<S>(-1));
+  if constexpr (sizeof(S) == 8)
+  {
+    v.push_back(static_cast<S>((1ULL << 32) + 2U));
+    v.push_back(static_cast<S>(1ULL << 31));
+    v.push_back(static_cast<S>((1ULL << 40) + 1U));
+    if constexpr (std::is_signed_v<S>) v.push_back(static_cast<S>(-((1LL << 32) + 2)));
+  }
+  return v;
+}
+template <typename S, std::size_t N, typename F>
+void for_extremes(F const &f)
+{
+  auto const vals = extreme_values<S>();
+  if constexpr (N == 1)
+    for (S a : vals) f(grid::pos<S, 1>(a));
+  else
+    for (S a : vals)
+      for (S b : vals) f(grid::pos<S, 2>(a, b));
+}
+template <typename S, std::size_t N>
+void op_clamped_ext(std::string const &f, tup<N> const &size)
+{
+  using U = std::make_unsigned_t<S>;
+  wd_begin(vj::J().kv("f", f).kv("N", static_cast<ll>(N)).kv("T", tname<S>()).kv("ext", true).raw("size", js<N>(size)).s);
+  std::string ps = "[", rs = "[";
+  bool first = true;
+  auto const d = mkdim<grid::dim<U, N>>(size);
+  for_extremes<S, N>([&](grid::pos<S, N> const &p) {
+    if (!first) { ps += ','; rs += ','; }
+    first = false;
+    ps += jv<N>(p);
+    if constexpr (std::is_signed_v<S>)
+    {
+      if (f == "clamped_min") rs += jv<N>(grid::clamped_min(p).get());
+      else rs += jv<N>(grid::clamped_sup_signed(p, d).get());
+    }
+    else
+      rs += jv<N>(grid::clamped_sup(p, d).get());
+  });
+  vj::end_call(",\"ps\":" + ps + "],\"rs\":" + rs + "]}");
+}
+template <std::size_t N>
+void record_wide()
+{
+  for (ll e : {0LL, 4LL})
+  {
+    tup<N> const size = fill_tup<N>(e);
+    op_clamped_ext<int, N>("clamped_min", size);
+    op_clamped_ext<long, N>("clamped_min", size);
+    op_clamped_ext<int, N>("clamped_sup_signed", size);
+    op_clamped_ext<long, N>("clamped_sup_signed", size);
+    op_clamped_ext<unsigned, N>("clamped_sup", size);
+    op_clamped_ext<unsigned long, N>("clamped_sup", size);
+  }
 }
 
 // ------------------------------------------------------------------ enumeration
@@ -596,6 +701,32 @@ void record_n(int maxe, int maxc)
       op_pos_range<unsigned long, N>(mn, sp, true);
     });
   });
+  // round 3: signed position types (components -2..2; N = 3: -1..1)
+  {
+    tup<N> const slo = fill_tup<N>(N == 3 ? -1 : -2), shi = fill_tup<N>(N == 3 ? 1 : 2);
+    for_box<N>(slo, shi, [&](tup<N> const &mn) {
+      for_box<N>(slo, shi, [&](tup<N> const &sp) {
+        op_pos_range<int, N>(mn, sp, false);
+        op_pos_range<long, N>(mn, sp, true);
+      });
+    });
+  }
+  if constexpr (N == 2)
+  {
+    for (tup<N> const &size : {tup<N>{300, 300}, tup<N>{70000, 3}, tup<N>{3, 70000}, tup<N>{46000, 46000}})
+    {
+      op_offset_at<unsigned, N>(size);
+      op_offset_at<unsigned long, N>(size);
+    }
+    record_wide<2>();
+  }
+  if constexpr (N == 1) record_wide<1>();
+  if constexpr (N == 3)
+    for (tup<N> const &size : {tup<N>{300, 300, 20}, tup<N>{1000, 1000, 1000}, tup<N>{2, 70000, 3}, tup<N>{256, 256, 256}})
+    {
+      op_offset_at<unsigned, N>(size);
+      op_offset_at<unsigned long, N>(size);
+    }
   for_box<N>(z, E, [&](tup<N> const &size) {
     op_whole_range<unsigned, N>(size);
     op_whole_range<unsigned long, N>(size);
@@ -678,7 +809,7 @@ template <std::size_t N>
 void op_interp(tup<N> const &gsize, gen_t<N> const &g, tup<N> const &q)
 {
   using G = grid::object<double, N>;
-  vj::begin_call(vj::J().kv("f", "interp").kv("N", static_cast<ll>(N)).raw("gsize", js<N>(gsize)).raw("gen", js<N + 1>(g)).raw("q", js<N>(q)).s);
+  wd_begin(vj::J().kv("f", "interp").kv("N", static_cast<ll>(N)).raw("gsize", js<N>(gsize)).raw("gen", js<N + 1>(g)).raw("q", js<N>(q)).s);
   G const gr(mkdim<typename G::dim>(gsize), [&g](typename G::pos const &p) { return static_cast<double>(lin<N>(g, p)); });
   auto const pos = fcppt::math::vector::init<fcppt::math::vector::static_<double, N>>(
       [&q](auto const i) { return static_cast<double>(q[decltype(i)::value]) / 4.0; });
@@ -695,7 +826,7 @@ void op_spiral_grid(tup<2> const &gsize, gen_t<2> const &g, tup<2> const &o, ll 
 {
   using G = grid_t<2>;
   using spos = grid::pos<long, 2>;
-  vj::begin_call(vj::J().kv("f", "spiral_grid").kv("N", 2).raw("gsize", js<2>(gsize)).raw("gen", js<3>(g)).raw("o", js<2>(o)).kv("d", d).s);
+  wd_begin(vj::J().kv("f", "spiral_grid").kv("N", 2).raw("gsize", js<2>(gsize)).raw("gen", js<3>(g)).raw("o", js<2>(o)).kv("d", d).s);
   G gr = make_grid<2>(gsize, g);
   std::string hits = "[";
   std::vector<ll> vals;
@@ -798,8 +929,8 @@ bool obj_step(long h, int i, action const &a)
   }
   // the operation is named before anything is touched; observing the slots before the operation can
   // itself abort if an earlier operation left an object inconsistent - the partial line then has no "pre"
-  vj::begin_call("{\"f\":\"obj\",\"N\":2,\"h\":" + std::to_string(h) + ",\"i\":" + std::to_string(i) + "," + action_json(a).substr(1));
-  vj::begin_call(",\"pre\":" + all_slots());
+  wd_begin("{\"f\":\"obj\",\"N\":2,\"h\":" + std::to_string(h) + ",\"i\":" + std::to_string(i) + "," + action_json(a).substr(1));
+  wd_begin(",\"pre\":" + all_slots());
   slot_t &D = slots[a.d];
   int ret = 0;
   std::string text = "[]";
@@ -1048,6 +1179,8 @@ void replay_n(vj::V const &v)
   {
     bool const mk = v.str("via") == "mk";
     if (T == "u32") op_pos_range<unsigned, N>(get_tup<N>(v, "min"), get_tup<N>(v, "sup"), mk);
+    else if (T == "i32") op_pos_range<int, N>(get_tup<N>(v, "min"), get_tup<N>(v, "sup"), mk);
+    else if (T == "i64") op_pos_range<long, N>(get_tup<N>(v, "min"), get_tup<N>(v, "sup"), mk);
     else op_pos_range<unsigned long, N>(get_tup<N>(v, "min"), get_tup<N>(v, "sup"), mk);
   }
   else if (f == "whole_range")
@@ -1063,6 +1196,21 @@ void replay_n(vj::V const &v)
   {
     if (T == "u32") op_offset<unsigned, N>(get_tup<N>(v, "size"));
     else op_offset<unsigned long, N>(get_tup<N>(v, "size"));
+  }
+  else if (f == "offset_at")
+  {
+    if (T == "u32") op_offset_at<unsigned, N>(get_tup<N>(v, "size"));
+    else op_offset_at<unsigned long, N>(get_tup<N>(v, "size"));
+  }
+  else if (v.has("ext"))
+  {
+    if constexpr (N <= 2)
+    {
+      if (T == "i32") op_clamped_ext<int, N>(f, get_tup<N>(v, "size"));
+      else if (T == "i64") op_clamped_ext<long, N>(f, get_tup<N>(v, "size"));
+      else if (T == "u32") op_clamped_ext<unsigned, N>(f, get_tup<N>(v, "size"));
+      else op_clamped_ext<unsigned long, N>(f, get_tup<N>(v, "size"));
+    }
   }
   else if (f == "at")
     op_at<N>(get_tup<N>(v, "gsize"), get_gen<N>(v, "gen"));
@@ -1129,13 +1277,19 @@ int main(int argc, char **argv)
   {
     vj::open(argv[2]);
     bool const thorough = std::string(argv[3]) == "thorough";
-    record_n<1>(4, 5);
-    record_n<2>(4, 5);
-    if (thorough)
-      record_n<3>(4, 5);
-    else
-      record_n<3>(3, 3);
-    if (!runaway) record_ext(thorough);
+    // round 3: `record OUT tier SECTION` drives one section (1..4) only; the check runs every section in
+    // its own process, so that a call that kills the process does not hide the other sections
+    int const sec = argc > 4 ? std::atoi(argv[4]) : 0;
+    if (sec == 0 || sec == 1) record_n<1>(4, 5);
+    if (sec == 0 || sec == 2) record_n<2>(4, 5);
+    if (sec == 0 || sec == 3)
+    {
+      if (thorough)
+        record_n<3>(4, 5);
+      else
+        record_n<3>(3, 3);
+    }
+    if ((sec == 0 || sec == 4) && !runaway) record_ext(thorough);
     vj::close();
     return 0;
   }
